@@ -23,7 +23,8 @@ GROUPS = {
     # a multi-field (virtual) B-tree index c = (a, b) next to the unique key and a member field's own index;
     # the sequential driver sends PARTIAL updates (only the fields that change), so updates touch subsets of c
     # and g, an ARRAY-valued field with one posting per element (key expansion, batch update on overlap)
-    "multi": (["k", "c", "a", "g"], ["k", "c", "a", "g", "t"], []),
+    # and h, a UNIQUE array-valued field (values 1/3 and 1/5 collide on one element: partially conflicting batches)
+    "multi": (["k", "c", "a", "g", "h"], ["k", "c", "a", "g", "h", "t"], []),
 }
 NVALS = 6
 # values whose key k collides: (1,3) share k=1, (2,6) share k=2
